@@ -447,8 +447,12 @@ class Policy(object):
             if base == 'nondeductible_contributions_next_year':
                 return self.amount(0, 900)
             if base == 'year_end_value_non_roth':
+                if p.get('ira_lost_value'):
+                    return self.amount(0, 3000)         # the account fell below its basis
                 return self.amount(30000, 200000, zero_ok=False)
             if base.startswith('distributions_'):
+                if p.get('ira_lost_value'):
+                    return self.amount(100, 1500, zero_ok=False)
                 return self.amount(100, 20000, zero_ok=False)
             if base == 'net_converted':
                 return self.amount(0, 5000)
@@ -531,7 +535,7 @@ class Policy(object):
         if base == 'box_20':
             return ''
         return d(st.sampled_from(['Jane', 'Doe', 'Public', 'Acme Corp', '12 Main St', 'engineer', 'Child One',
-                                  'son', 'Mary Ann', "O'Neil", 'First Bank', 'x', 'Unit #12', '5 Elm St ;rear', '#7', 'No', 'None', 'on', 'Smith-Jones']))
+                                  'son', 'Mary Ann', "O'Neil", 'First Bank', 'x', 'Unit #12', '5 Elm St ;rear', '#7', 'No', 'None', 'on', 'Smith-Jones', 'Reading "coach"', '"Central Office"', "'quoted'"]))
 
 
 # ---------------------------------------------------------------------------
